@@ -9,24 +9,35 @@ uninterpreted("F", 2)
 uninterpreted("dictcomp0", 1)
 # G: the answer find() must give = F, with str types converted when ensure_data_types is set
 define("G", "lambda view, table, edt: ite(truthy(edt) and isinstance(F(view, table), dict), dictcomp0(F(view, table)), F(view, table))")
-# coherence: every (non-None) cache entry equals the answer computed from the current registrations
+# Miss(view, table): the table does not resolve to exactly one registration (absent, or an ambiguous prefix)
+uninterpreted("Miss", 2, "bool")
+# coherence: every (non-None) cache entry is for a table that resolves, and equals the answer computed from the current
+# registrations
 define("coh", "lambda s: forall(val, lambda t, e: implies(has(s._find_cache, (t, e)) and s._find_cache[(t, e)] is not None and is_bool(e),"
-              " s._find_cache[(t, e)] is G(s.view_version, t, e)))")
+              " not Miss(s.view_version, t) and s._find_cache[(t, e)] is G(s.view_version, t, e)))")
 
-# the uncached computation is the definition of F (assumed; its only inputs are the registrations and the table)
+# the uncached computation is the definition of F and Miss (assumed; its only inputs are the registrations and the
+# table).  Shape taken from _find_in_trie / nested_get: an unresolved table raises when raise_on_missing, else is None;
+# a resolved one is the (non-None) registered mapping.
 contract(
-    S, "AbstractMappingSchema.find", props=["C18"], verify=False,
-    ensures=["result is F(self.view_version, table)"],
-    raises={"SchemaError": []},
+    S, "AbstractMappingSchema.find", props=["C18", "C15"], verify=False,
+    ensures=["implies(Miss(self.view_version, table), result is None and not truthy(raise_on_missing))",
+             "implies(not Miss(self.view_version, table), result is F(self.view_version, table) and result is not None)"],
+    raises={"SchemaError": ["Miss(self.view_version, table)", "truthy(raise_on_missing)"]},
     modifies=[],
 )
 
+# the answer of a reused schema is the answer of a fresh one (C15) / of the current registrations (C18), whatever the
+# cache holds and whichever way (strict / lenient) the table was asked for before
 contract(
-    S, "MappingSchema.find", props=["C18"],
+    S, "MappingSchema.find", props=["C18", "C15"],
     types={"table": "Table", "raise_on_missing": "bool", "ensure_data_types": "bool"},
     requires=["coh(self)"],
-    ensures=["coh(self)", "result is G(self.view_version, table, ensure_data_types)", "self.view_version == old(self.view_version)"],
-    raises={"SchemaError": ["coh(self)", "self.view_version == old(self.view_version)"]},
+    ensures=["coh(self)", "self.view_version == old(self.view_version)",
+             "implies(Miss(self.view_version, table), result is None and not truthy(raise_on_missing))",
+             "implies(not Miss(self.view_version, table), result is G(self.view_version, table, ensure_data_types))"],
+    raises={"SchemaError": ["coh(self)", "self.view_version == old(self.view_version)",
+                            "Miss(self.view_version, table)", "truthy(raise_on_missing)"]},
     modifies=["self._find_cache{}"],
     must_fail=["result is None"],
 )
